@@ -59,7 +59,7 @@ def run(ctx):
         ctx.cov["samples"] += [ev[len(ev) // 2], ev[-1]]
         for f in fails:
             e = ev[f["i"] - 1]
-            ctx.report(classify(e, f["mon"]), {"driver": "h-aux c45 " + " ".join(map(str, args)), "event": e})
+            ctx.report(dict(classify(e, f["mon"]), conforms=f.get("conforms", True)), {"driver": "h-aux c45 " + " ".join(map(str, args)), "event": e})
     ctx.distinct += len(seen)
     for k, v in stats.items():
         if v == 0:
